@@ -127,6 +127,7 @@ fn read_entry(
     let mut all_offsets = vec![header_data.name_offset];
     all_offsets.extend(header_data.thtx_offset.map(NonZeroU64::get));
     all_offsets.extend(header_data.secondary_name_offset.map(NonZeroU64::get));
+    all_offsets.extend(Some(header_data.next_offset).filter(|&x| x != 0));  // (start of the next entry)
     all_offsets.extend(sprite_offsets.iter().map(|&offset| offset as u64));
     all_offsets.extend(script_ids_and_offsets.iter().map(|&(_, offset)| offset as u64));
 
